@@ -2,3 +2,34 @@
 from vlib.props import convprops as P, convcommon as cc
 from vlib import convgen as g
 globals().update(P.make('C09', "conv probe with AUTH letters (initial response, '=', bad base64, '*', unknown mechanism, 2-step exchanges with binary challenge) x TLS {plaintext, after STARTTLS, implicit} x AllowInsecureAuth x backend {AuthSession, none}; sweep + walks. non-trivial = at least one backend callback", ['C09 (via Order monitor, pending)'], None, lambda a: cc.project(a, codes='exact', enh=False, drecs='none'), tls=True, configs=None))
+
+# --- client half: the real Client.Auth against a scripted peer -----------------------------------------------
+from vlib.core import Group as _Group
+from vlib.props import clientprops as _CP
+_conv_groups = groups
+RULE = RULE + (" | cconv probe (client half): Client.Auth with 0-3 step mechanism scripts x initial response {none, empty, text, binary} x "
+               "challenges {empty, text, binary, 40 octets} x final replies {235, 535, 454, 501, undecodable 334} x mechanism failure at a step")
+TRUSTED = TRUSTED + _CP.TRUSTED[2:]
+
+
+def known_star(case, impl, reason):
+    """Client.Auth sends the cancel token '*' after the server has already ended the exchange with a final
+    negative (non-334, non-235) reply"""
+    return case.startswith("cconv") and "C09 the client sends the cancel token" in reason and reason.count("C09") == 1
+
+
+KNOWN = dict(KNOWN)
+KNOWN["auth_star_after_final_reply"] = known_star
+
+
+def groups(tier, rng):
+    return _conv_groups(tier, rng) + [_Group("cconv/client-auth", _CP.c09_cases(tier, rng), theorems=THEOREMS)]
+
+
+_nt = nontrivial
+nontrivial = lambda case, ans: True if case.startswith("cconv") else _nt(case, ans)
+_sig = signature
+signature = lambda case, ans: "cconv/auth" if case.startswith("cconv") else _sig(case, ans)
+_mut, _shr = mutate, shrink
+mutate = lambda case, rng: [] if case.startswith("cconv") else _mut(case, rng)
+shrink = lambda case: [] if case.startswith("cconv") else _shr(case)
